@@ -186,7 +186,8 @@ def collect(ctx, jobs, incidents):
     for inc in incidents:
         j = inc["job"]
         line = vlib.nth_line(j["beh"], inc["item"]) if j.get("beh") else None
-        findings.append({"cat": "hang" if inc["kind"] == "hang" else "abort", "e": j.get("e"), "input": "(behaviour #%s of %s)" % (inc["item"], os.path.basename(j.get("beh", "?"))),
+        cur = inc.get("input")
+        findings.append({"cat": "hang" if inc["kind"] == "hang" else "abort", "e": j.get("e"), "input": cur if cur is not None else "(behaviour #%s of %s)" % (inc["item"], os.path.basename(j.get("beh", "?"))),
                          "ph": "", "expected": "the call returns", "actual": inc["kind"] + " rc=%s %s" % (inc.get("rc"), (inc.get("stderr") or "")[-300:]),
                          "extra": {"behaviour": json.loads(line) if line else None}, "profile": j.get("profile")})
     return findings, stats
@@ -223,7 +224,7 @@ def merge_rules(stats):
             out[k] = out.get(k, 0) + v
     return out
 
-def grammar_check(ctx, cats, n_quick, n_thorough, opts, evals=EVALS, invs=None, level="model_checking", extra_cov=None, profiles=("debug", "release"), lexer=None, sem=None, compose=None, extra_jobs=None):
+def grammar_check(ctx, cats, n_quick, n_thorough, opts, evals=EVALS, invs=None, level="model_checking", extra_cov=None, profiles=("debug", "release"), lexer=None, sem=None, compose=None, extra_jobs=None, unopt_jobs=None):
     prop = ctx.prop
     opt0 = opts[0] if isinstance(opts, list) else opts
     invs = invs if invs is not None else GRAMMAR_INV.get(prop, [])
@@ -272,6 +273,17 @@ def grammar_check(ctx, cats, n_quick, n_thorough, opts, evals=EVALS, invs=None, 
             sum_stats(s, "matched"), sum_stats(s, "not_asserted"), len(f)))
     if len(profiles) > 1:
         all_findings += profile_diff(ctx, profiles)
+    if unopt_jobs:
+        binary, bt = vlib.build_harness("unopt")
+        log("harness (unopt) built in %ss" % bt)
+        jobs = unopt_jobs(ctx)
+        incidents = vlib.supervise(binary, jobs)
+        f, s = collect(ctx, jobs, incidents)
+        for x in f:
+            x["profile"] = "unopt (opt-level 0), 2 MiB thread stack"
+        all_findings += f
+        all_stats += s
+        log("replay (unopt, 2 MiB threads): %d calls, %d findings" % (sum_stats(s, "calls"), len(f)))
     mine = [f for f in all_findings if f.get("cat") in cats]
     others = {}
     for f in all_findings:
@@ -419,12 +431,16 @@ def nested_agg_jobs(ctx):
     return lambda profile: ([base_job(ctx, "agg", "%s_nested_%s" % (profile, e), profile, nested_e=e, event_every=100, event_cap=500) for e in ["i64", "f64", "dec", "num"]]
                             + deep_shape_jobs(ctx)(profile))
 
+def unopt_shape_jobs(ctx):
+    """deep shapes in the unoptimised build, each call on a thread with std's default stack of 2 MiB"""
+    return [base_job(ctx, "loops", "unopt_shapes_%s" % e, "unopt", e=e, shapes=True, thread_stack=2 * 1024 * 1024, event_every=0, event_cap=0) for e in EVALS]
+
 def deep_shape_jobs(ctx):
     return lambda profile: [base_job(ctx, "loops", "%s_shapes_%s" % (profile, e), profile, e=e, shapes=True, event_every=1, event_cap=2000) for e in EVALS]
 
 def c01(ctx):
     q = ctx.quick()
-    return grammar_check(ctx, {"panic", "abort"}, {"*": 4}, {"*": 6, "f64": 6}, extra_jobs=nested_agg_jobs(ctx), opts=
+    return grammar_check(ctx, {"panic", "abort", "hang"}, {"*": 4}, {"*": 6, "f64": 6}, extra_jobs=nested_agg_jobs(ctx), unopt_jobs=unopt_shape_jobs, opts=
                          [{"assignments": 2, "full_placeholders": True, "event_every": 50, "event_cap": 2000, "reject_suffixes": 2},
                           {"assignments": 1, "boundary_pool": True, "full_placeholders": True, "max_assign": 200 if q else 4000, "event_every": 500, "event_cap": 1000, "compose_assign": 6 if q else 40}],
                          invs=[], lexer={"alphabets": ["lit", "kw1", "kw2", "kw3", "ops"], "k_quick": 3, "k_thorough": 5},
